@@ -14,6 +14,14 @@ Translation validation with a PROVED checker + compiler models (DESIGN §7 C12):
 
 Case kinds: file (every shipped .co file — exhaustive), v2src / v1src (generated source text through the whole
 parser), v2ast / v1items (generated ASTs straight into the compilers; these carry the compiler differential).
+
+Phase 4 — the property speaks about every compiled flow the runtime ever executes, so there are runtime-level families:
+v2rt (histories on real RuntimeV2_x / LLMRails objects: fresh conversations, initialize_state again, AddFlowsAction, JSON
+round trip of the state, a second instance on the SAME RailsConfig object, reload; every live instance is inspected after
+every step), v2ast with `again` (initialize_flow twice on one FlowConfig / new FlowConfigs from the same parsed flows, with
+a differential against the Lean model of the repaired re-compilation), v1rt (Colang 1.0: shared RailsConfig, reload,
+conversation, flows added by _process_start_flow compared with the Lean model `dynamicFlow`).  Findings of these families
+carry a HISTORY CLASS in their signature (@added-flow, @reinitialized, @recompiled-ast, @clobbered).
 """
 import ast as pyast
 import contextlib
@@ -36,17 +44,24 @@ RULE = ("(1) EVERY .co file under the repository (exhaustive, both tiers), versi
         "(control flow, groups, start/await/activate, NLD, when/or when/else; depth <= 6) straight into expand_elements, compared with the Lean model Expand; (4) generated Colang 1.0 source "
         "(if/else if/else, while, break/continue, when/else when, label/goto, any, $x = ...) through the real parser; (5) generated CoYML item "
         "trees (depth <= 6, incl. undefined/duplicate checkpoints) straight into parse_flow_elements, compared with the Lean model V1Compile. "
+        "(6) runtime histories (3-7 steps: new / reload / conv / cont / reinit / add / json / gen) over generated 2.x configurations whose every flow has a while with "
+        "break/continue directly and nested in if/when, on real RuntimeV2_x (85 %) / LLMRails (15 %) objects, all live instances inspected after every step; "
+        "(7) 25 % of the AST cases additionally re-enter the compiler (initialize_flow twice / recompile the same parsed flows once or twice); "
+        "(8) Colang 1.0 histories (LLMRails on a shared RailsConfig, reload, generate, _process_start_flow with generated bodies). "
         "non-trivial = the compiled flow contains at least one jump target / relative offset; distinct = distinct case JSON.")
 TRUSTED_BASE = [
     "harness/props/C12.py: encoders real element -> Prim / Elem JSON (class name and four attributes per element), AST -> Stmt / Item converters, label canonicaliser",
     "Lean driver Drive/C12.lean (JSON codecs)",
     "Lark parser / Colang 1.0 line parser (used as they are to obtain the ASTs; not modelled)",
+    "runtime-level families: the adapter drives RuntimeV2_x.process_events / initialize_state / _add_flows_action / LLMRails.generate / RuntimeV1_0._process_start_flow directly (api=runtime skips the import of the library's action modules per instance); FakeLLM + md5 embedding engine",
     "the model of slide's look-ups (Closed.step) covers Goto/ForkHead/Abort/Break/Continue/CatchPatternFailure; MergeHeads' head_fork_uids look-up and scope bookkeeping are dynamic and only constrained statically (merge after fork, EndScope after BeginScope)",
 ]
 ASSUMPTIONS = [
     "Colang 2.x compiler model (Expand) covers if/elif/else, while/break/continue, match/send/start/await groups, start/await/activate/deactivate, NLD assignment, when/or when/else; it starts from the DNF computed by the real normalize_element_groups (C07) and does not model the aliasing of AST objects between the copies of then-/else-bodies (such ASTs: proved checkers + oracle only)",
     "scope pairing in `Closed` is on the linear element order; the per-path statement (no BeginScope met while the scope is held, no failing look-up) is proved per program by the certificate checker `pathSafe` on every real flow that opens a scope (<= 400 elements)",
     "a flow the loader rejects (syntax error, expansion error) is outside the property; such inputs are counted and listed",
+    "re-compilation of a parsed flow: the Lean theorem (`recompile_closed`) is about the REPAIRED compiler (fixes/C12-loop-exit-label-in-place.diff); the code as it is violates it inside the region of the open finding 2.x:dangling-target@recompiled-ast (`recompile_as_is_counterexample`) and satisfies `recompile_as_is_closed_partial` outside",
+    "generated v2rt programs are compiled, not executed (gated behind `match NeverSent()`): closedness is a static property of the flow configs the runtime holds; the corpus histories execute their loops",
 ]
 
 REPO = tu.REPO
@@ -398,16 +413,177 @@ def _fix_labels(rng, items):
     return items
 
 
+# ---- phase 4: runtime-level families.  C12 speaks about every compiled flow the runtime ever executes, not about ONE
+# compilation of a freshly parsed AST: the flow configs a RuntimeV2_x / LLMRails instance holds after k fresh conversations,
+# after initialize_state ran again, after flows were added at run time, after a second instance compiled the same RailsConfig.
+
+RT_EVENTS = ["Ev1", "Ev2", "Ev3", "Ev4"]
+
+
+def _rt_cond(rng, novars):
+    return rng.choice(["True", "1 < 2", "2 > 1"]) if novars else rng.choice(["$x < 3", "$x > 1", "$y", "True"])
+
+
+def _rt_simple(rng, flows, in_loop, novars, st):
+    r = rng.random()
+    if in_loop and r < 0.40:
+        st["jumps"] += 1
+        return rng.choice(["break", "continue"])
+    if r < 0.50:
+        return "send " + rng.choice(RT_EVENTS) + "()"
+    if r < 0.62:
+        return "match " + rng.choice(RT_EVENTS) + "()"
+    if r < 0.72 and not novars:
+        return "$x = $x + 1"
+    if r < 0.80 and flows:
+        return rng.choice(["await ", "start ", ""]) + rng.choice(flows)
+    if r < 0.88:
+        return "match " + rng.choice(RT_EVENTS) + "() " + rng.choice(["or", "and"]) + " " + rng.choice(RT_EVENTS) + "()"
+    if r < 0.94 and not novars:  # (novars = text that goes into a string literal: no quotes, no `$`)
+        return 'await UtteranceBotAction(script="a")'
+    return "pass"
+
+
+def _rt_when_spec(rng, flows, novars):
+    """a case of `when`: mostly an event; also a flow / an action that the case starts (refs are stored in the parsed spec)"""
+    r = rng.random()
+    if r < 0.15 and flows:
+        return rng.choice(flows)
+    if r < 0.25 and not novars:
+        return 'UtteranceBotAction(script="a")'
+    return rng.choice(RT_EVENTS) + "()"
+
+
+def _rt_block(rng, depth, in_loop, flows, ind, out, novars, st, after_else=False):
+    pad = "  " * ind
+    for j in range(rng.choice([1, 1, 2, 2, 3])):
+        r = rng.random()
+        if after_else and j == 0 and r < 0.2:
+            r = 0.99  # (an else-suite must not start with `if`, see _v2_block)
+        if depth > 0 and r < 0.20:
+            out.append(pad + "if " + _rt_cond(rng, novars))
+            _rt_block(rng, depth - 1, in_loop, flows, ind + 1, out, novars, st)
+            if rng.random() < 0.3:
+                out.append(pad + "elif " + _rt_cond(rng, novars))
+                _rt_block(rng, depth - 1, in_loop, flows, ind + 1, out, novars, st)
+            if rng.random() < 0.4:
+                out.append(pad + "else")
+                _rt_block(rng, depth - 1, in_loop, flows, ind + 1, out, novars, st, True)
+        elif depth > 0 and r < 0.45:
+            out.append(pad + "while " + _rt_cond(rng, novars))
+            st["loops"] += 1
+            _rt_block(rng, depth - 1, True, flows, ind + 1, out, novars, st)
+        elif depth > 0 and r < 0.60:
+            out.append(pad + "when " + _rt_when_spec(rng, flows, novars) + rng.choice(["", "", " or " + rng.choice(RT_EVENTS) + "()", " and " + rng.choice(RT_EVENTS) + "()"]))
+            _rt_block(rng, depth - 1, in_loop, flows, ind + 1, out, novars, st)
+            for _ in range(rng.choice([0, 1, 1])):
+                out.append(pad + "or when " + _rt_when_spec(rng, flows, novars))
+                _rt_block(rng, depth - 1, in_loop, flows, ind + 1, out, novars, st)
+            if rng.random() < 0.4:
+                out.append(pad + "else")
+                _rt_block(rng, depth - 1, in_loop, flows, ind + 1, out, novars, st, True)
+        else:
+            out.append(pad + _rt_simple(rng, flows, in_loop, novars, st))
+
+
+def gen_rt_flow(rng, name, depth, flows, novars, prelude=()):
+    """one flow whose body contains at least one `while` with a break / continue inside (directly or nested in if / when)"""
+    while True:
+        st = {"jumps": 0, "loops": 0}
+        out = ["flow " + name] + ["  " + p for p in prelude]
+        _rt_block(rng, depth, False, flows, 1, out, novars, st)
+        if st["jumps"] and st["loops"]:
+            return out
+
+
+def gen_v2_rt(rng, thorough):
+    depth = rng.choice([1, 2, 2, 3]) if not thorough else rng.choice([1, 2, 3, 4])
+    helpers = ["helper a", "helper b"][:rng.choice([0, 0, 1, 1, 2])]
+    out = []
+    for f in helpers:
+        out += gen_rt_flow(rng, f, rng.randrange(1, depth + 1), [x for x in helpers if x != f], False) + [""]
+    prelude = ["$x = 0"]
+    if rng.random() < 0.35:  # a flow added at run time through the registered AddFlowsAction (reached when main starts)
+        extra = "\\n".join(gen_rt_flow(rng, "extra one", rng.choice([1, 2, 3]), [], True)) + "\\n"
+        prelude.append('await AddFlowsAction(config="%s")' % extra)
+    prelude.append("match NeverSent()")  # the generated body is compiled, not executed (its loops need not terminate)
+    out += gen_rt_flow(rng, "main", depth, helpers, False, prelude)
+    src = "\n".join(out) + "\n"
+    steps = [["new"]]
+    for _ in range(rng.choice([2, 3, 3, 4, 5])):
+        r = rng.random()
+        ev = [rng.choice(RT_EVENTS) for _ in range(rng.choice([0, 1, 2]))]
+        if r < 0.50:
+            steps.append(["conv", ev])          # a fresh conversation: process_events(..., state=None)
+        elif r < 0.55:
+            steps.append(["cont", ev])          # the same conversation goes on
+        elif r < 0.58:
+            steps.append(["json"])              # the state travels as JSON (state_to_json / json_to_state), as with a server
+        elif r < 0.70:
+            steps.append(["reinit"])            # initialize_state again on the flow configs the runtime holds
+        elif r < 0.82:
+            steps.append(["add", "\n".join(gen_rt_flow(rng, "extra two", rng.choice([1, 2, 3]), [], rng.random() < 0.5)) + "\n"])
+        elif r < 0.94:
+            steps.append(["new"])               # a second runtime / LLMRails on the SAME RailsConfig object
+        else:
+            steps.append(["reload"])            # the configuration is loaded again (fresh parse) + a new runtime
+    if not any(s[0] in ("conv", "reinit") for s in steps):
+        steps.append(["conv", []])
+    if rng.random() < 0.6:
+        steps.append(["conv", []])
+    return {"kind": "v2rt", "api": "rails" if rng.random() < 0.15 else "runtime", "src": src, "steps": steps}
+
+
+def _v1_defined_gotos(src):
+    """replace a `goto` whose checkpoint is not defined in the same flow (the loader rejects such a configuration as a whole)"""
+    out = []
+    for block in re.split(r"(?m)^(?=define )", src):
+        labels = set(re.findall(r"(?m)^\s*label (\w+)\s*$", block))
+        out.append(re.sub(r"(?m)^(\s*)goto (\w+)\s*$", lambda m: m.group(0) if m.group(2) in labels else m.group(1) + "bot say z", block))
+    return "".join(out)
+
+
+def gen_v1_rt(rng, depth):
+    src = "define user express greeting\n  \"hello\"\n\n" + _v1_defined_gotos(gen_v1_src(rng, depth))
+    if rng.random() < 0.5:
+        # subflows start with a `meta` element which `_load_flow_config` slices off (`elements[1:]`) AFTER the offsets were computed
+        src = re.sub(r"(?m)^define flow (f[12])$", lambda m: "define subflow " + m.group(1), src)
+    steps = [["new"]]
+    for _ in range(rng.choice([1, 2, 3])):
+        r = rng.random()
+        if r < 0.35:
+            steps.append(["new"])
+        elif r < 0.5:
+            steps.append(["reload"])
+        elif r < 0.65:
+            steps.append(["gen", "hello"])
+        else:
+            body = ["user express greeting"]  # (the new flow is started at once: it must wait at its first element)
+            _v1_block(rng, rng.randrange(1, depth + 1), False, 0, body, [])
+            steps.append(["dyn", "dyn%d" % rng.randrange(3), _v1_defined_gotos("\n".join(body) + "\n")])
+    return {"kind": "v1rt", "src": src, "steps": steps}
+
+
 def gen_cases(rng, tier):
     cases = [{"kind": "file", "path": p} for p in shipped_files()]
     if tier == "quick":
         n_v2src, n_v2ast, n_v1src, n_v1items, depth = 900, 5000, 1500, 5000, 4
+        n_v2rt, n_v1rt = 500, 120
     else:
         n_v2src, n_v2ast, n_v1src, n_v1items, depth = 5000, 45000, 10000, 60000, 6
+        n_v2rt, n_v1rt = 4000, 800
+    for _ in range(n_v2rt):
+        cases.append(gen_v2_rt(rng, tier != "quick"))
+    for _ in range(n_v1rt):
+        cases.append(gen_v1_rt(rng, rng.randrange(1, 4)))
     for _ in range(n_v2src):
         cases.append({"kind": "v2src", "src": gen_v2_src(rng, rng.randrange(1, depth + 1))})
     for _ in range(n_v2ast):
-        cases.append({"kind": "v2ast", "stmts": gen_v2_ast(rng, rng.randrange(1, 7))})
+        c = {"kind": "v2ast", "stmts": gen_v2_ast(rng, rng.randrange(1, 7))}
+        r = rng.random()
+        if r < 0.25:
+            c["again"] = rng.choice(["reinit", "reinit", "recompile", "recompile2"])  # re-entrancy of expand_elements, see run_impl
+        cases.append(c)
     for _ in range(n_v1src):
         cases.append({"kind": "v1src", "src": gen_v1_src(rng, rng.randrange(1, depth + 1))})
     for _ in range(n_v1items):
@@ -420,6 +596,10 @@ def gen_cases(rng, tier):
 
 def escalate(rng, focus, tier):
     cases = []
+    for _ in range(1500):
+        cases.append(gen_v2_rt(rng, True))
+    for _ in range(200):
+        cases.append(gen_v1_rt(rng, rng.randrange(1, 4)))
     for _ in range(1500):
         cases.append({"kind": "v2src", "src": gen_v2_src(rng, rng.randrange(1, 6))})
         cases.append({"kind": "v1src", "src": gen_v1_src(rng, rng.randrange(1, 6))})
@@ -452,6 +632,35 @@ def worker_init():
         return str(counter[0])
 
     expansion.new_var_uuid = det_uuid  # deterministic uids ("…_<n>"), renamed by first occurrence before comparing
+
+    # runtime-level families: deterministic offline embedding engine (LLMRails builds a flows index when it is constructed)
+    import hashlib
+    import sys
+
+    from nemoguardrails import LLMRails, RailsConfig
+    from nemoguardrails.colang.v2_x.runtime.runtime import RuntimeV2_x
+    from nemoguardrails.embeddings.providers import register_embedding_provider
+    from nemoguardrails.embeddings.providers.base import EmbeddingModel
+
+    class FakeEmb(EmbeddingModel):
+        engine_name = "fakeemb"
+
+        def __init__(self, embedding_model=None, **kw):
+            self.model = embedding_model
+            self.embedding_size = 8
+
+        def encode(self, documents):
+            return [[b / 255.0 for b in hashlib.md5(d.encode()).digest()[:8]] for d in documents]
+
+        async def encode_async(self, documents):
+            return self.encode(documents)
+
+    with contextlib.suppress(Exception):
+        register_embedding_provider(FakeEmb, "fakeemb")
+    sys.path.insert(0, os.path.join(REPO, "tests"))
+    from utils import FakeLLM
+
+    _M.update(LLMRails=LLMRails, RailsConfig=RailsConfig, RuntimeV2_x=RuntimeV2_x, FakeLLM=FakeLLM)
     _M.update(parse=parse_colang_file, is_v2=_is_colang_v2, v1=v1, v1cp=v1cp, A=A, expansion=expansion, sm=sm,
               FlowConfig=FlowConfig, State=State, mkcfgs=create_flow_configs_from_flow_list)
 
@@ -491,7 +700,8 @@ def prim_of(e):
     if isinstance(e, A.Label):
         return ["label", e.name]
     if isinstance(e, A.Goto):
-        return ["goto", e.label]
+        # a Goto whose expression is the constant True is unconditional (`Prim.jump`): `slide` never falls through it
+        return ["jump" if str(e.expression).strip() == "True" else "goto", e.label]
     if isinstance(e, A.ForkHead):
         return ["fork", e.fork_uid, list(e.labels)]
     if isinstance(e, A.MergeHeads):
@@ -851,10 +1061,29 @@ def _group_of(dnf, always_dict):
     return {"_type": "spec_or", "elements": [_spec_of(cl[0]) if len(cl) == 1 else {"_type": "spec_and", "elements": [_spec_of(a) for a in cl]} for cl in dnf]}
 
 
-def compile_v2_flows(flows, with_stmts):
+def user_labels_of(elements):
+    """names of the labels the USER wrote (Label elements of the parsed AST, before any expansion)"""
+    A = _M["A"]
+    out = []
+    for e in elements or []:
+        if isinstance(e, A.Label):
+            out.append(e.name)
+        elif isinstance(e, A.If):
+            out += user_labels_of(e.then_elements) + user_labels_of(e.else_elements)
+        elif isinstance(e, A.While):
+            out += user_labels_of(e.elements)
+        elif isinstance(e, A.When):
+            for t in e.then_elements:
+                out += user_labels_of(t)
+            out += user_labels_of(e.else_elements)
+    return out
+
+
+def compile_v2_flows(flows, with_stmts, again=None):
     """real pipeline for a list of parsed Flow objects: FlowConfig -> initialize_flow (expand_elements + label table)"""
     sm, State = _M["sm"], _M["State"]
     stmts = {}
+    ulabels = {f.name: sorted(set(user_labels_of(f.elements))) for f in flows}
     if with_stmts:
         for f in flows:
             stmts[f.name] = stmts_of(f.elements)
@@ -880,14 +1109,262 @@ def compile_v2_flows(flows, with_stmts):
             rec["reject"] = f"{type(e).__name__}: {str(e)[:120]}"
             out.append(rec)
             continue
-        rec["prog"] = [prim_of(e) for e in cfg.elements]
-        rec["labels"] = sorted([k, v] for k, v in cfg.element_labels.items())
-        rec["oracle"] = scan_v2(cfg.elements, cfg.element_labels)
-        rec["oracle_paths"] = scan_v2_paths(cfg.elements, cfg.element_labels)
+        rec.update(flow_record(cfg))
+        rec["user_labels"] = ulabels.get(name, [])
         if stmts.get(name) is not None:
             rec["stmts"] = stmts[name]
         out.append(rec)
+    # re-entrancy of the compiler (phase 4): the SAME objects go through it again
+    first = {r["id"]: r.get("prog") for r in out}
+    if again == "reinit":
+        # what every further fresh conversation does: initialize_state -> initialize_flow on the flow configs the runtime holds
+        for name, cfg in cfgs.items():
+            if first.get(name) is None:
+                continue
+            with _quiet():
+                sm.initialize_flow(state, cfg)
+            rec = dict(flow_record(cfg), id=name, snap=[1, 0], cls="@reinitialized")
+            if rec["prog"] != first[name] or rec["oracle"]:
+                out.append(rec)
+            else:
+                out.append({"id": name, "same": True, "cls": "@reinitialized"})
+    elif again in ("recompile", "recompile2") and all(p is not None for p in first.values()):
+        # what a second runtime on the same RailsConfig does: new FlowConfigs from the same parsed Flow objects
+        for k in range(1 if again == "recompile" else 2):
+            cfgs2 = _M["mkcfgs"](flows)
+            state2 = State(flow_states=[], flow_configs=cfgs2)
+            for name, cfg in cfgs2.items():
+                with _quiet():
+                    sm.initialize_flow(state2, cfg)
+                out.append(dict(flow_record(cfg), id=name, snap=[k + 1, k + 1], cls="@recompiled-ast", recompiled=k + 1))
     return out
+
+
+def flow_record(cfg):
+    """what the check looks at in one compiled flow (FlowConfig after initialize_flow)"""
+    return {"prog": [prim_of(e) for e in cfg.elements],
+            "labels": sorted([k, v] for k, v in cfg.element_labels.items()),
+            "oracle": scan_v2(cfg.elements, cfg.element_labels),
+            "oracle_paths": scan_v2_paths(cfg.elements, cfg.element_labels)}
+
+
+RT_YAML2 = 'colang_version: "2.x"\nmodels:\n  - type: embeddings\n    engine: fakeemb\n    model: fake\n'
+RT_YAML1 = ("models:\n  - type: main\n    engine: openai\n    model: gpt-3.5-turbo-instruct\n"
+            "  - type: embeddings\n    engine: fakeemb\n    model: fake\n")
+CLS_ORDER = ["", "@added-flow", "@reinitialized", "@clobbered", "@recompiled-ast"]
+
+
+class _Watchdog(BaseException):
+    pass
+
+
+def _event(n):
+    return dict(n) if isinstance(n, dict) else {"type": n}
+
+
+def run_v2rt(case):
+    """One history on REAL runtime objects.  After every step every live instance is inspected: each flow config it holds
+    (`runtime.flow_configs`, and the `flow_configs` of the State of its last conversation when that is another dict) must be a
+    closed flow.  Steps: new (RuntimeV2_x / LLMRails on the shared RailsConfig object), reload (fresh RailsConfig + instance),
+    conv (process_events(events, state=None)), cont (same conversation goes on), reinit (initialize_state again on the flow
+    configs the runtime holds), add (the registered AddFlowsAction function on the state of the last conversation), gen
+    (LLMRails.generate, api=rails only)."""
+    import asyncio
+
+    sm, State = _M["sm"], _M["State"]
+    obs = {"version": "2.x", "rt": True, "flows": [], "steps_done": []}
+    try:
+        with _quiet():
+            config = _M["RailsConfig"].from_content(colang_content=case["src"], yaml_content=RT_YAML2)
+    except Exception as e:  # noqa
+        obs["reject"] = f"parse: {type(e).__name__}: {str(e)[:120]}"
+        return obs
+    cfg_id = 0
+    insts = []  # {"rt", "rails", "cfg", "compiles", "added", "state"}
+    compilers = {}  # cfg id -> set of instance indices that compiled it
+    seen = {}  # (inst, view, flow id) -> prog of the last snapshot
+
+    def cls_of(j, actor, fid):
+        """history class of a (new or changed) compiled flow seen in instance j after a step of instance `actor`"""
+        inst = insts[j]
+        if actor != j:
+            return "@clobbered"  # the flows of an instance changed although ANOTHER instance acted
+        if len(compilers.get(inst["cfg"], ())) >= 2:
+            return "@recompiled-ast"  # the parsed flows of this RailsConfig object were compiled by >= 2 instances
+        if inst["compiles"] >= 2:
+            return "@reinitialized"  # one instance, second or later fresh conversation / initialize_state
+        return "@added-flow" if fid.startswith("extra") else ""
+
+    def snapshot(step, actor):
+        for j, inst in enumerate(insts):
+            if not inst["compiles"]:
+                continue
+            views = [("rt", inst["rt"].flow_configs)]
+            if inst["state"] is not None and inst["state"].flow_configs is not inst["rt"].flow_configs:
+                views.append(("state", inst["state"].flow_configs))
+            for vname, cfgs in views:
+                for fid, fc in cfgs.items():
+                    rec = flow_record(fc)
+                    key = (j, vname, fid)
+                    if seen.get(key) == rec["prog"]:
+                        continue
+                    seen[key] = rec["prog"]
+                    obs["flows"].append(dict(rec, id=fid, snap=[step, j], view=vname, cls=cls_of(j, actor, fid)))
+
+    cur = None
+    for i, st in enumerate(case["steps"]):
+        k = st[0]
+        done = k
+        try:
+            with _quiet():
+                if k in ("new", "reload"):
+                    if k == "reload":
+                        config = _M["RailsConfig"].from_content(colang_content=case["src"], yaml_content=RT_YAML2)
+                        cfg_id += 1
+                    if case.get("api") == "rails":
+                        rails = _M["LLMRails"](config)
+                        rt = rails.runtime
+                    else:
+                        # (api=runtime: the action dispatcher does not import the action modules of the library from disk
+                        # for every instance -- 70 ms each, irrelevant for the flows; api=rails constructs everything)
+                        from nemoguardrails.actions.action_dispatcher import ActionDispatcher
+                        orig = ActionDispatcher.load_actions_from_path
+                        ActionDispatcher.load_actions_from_path = lambda self, path: None
+                        try:
+                            rails, rt = None, _M["RuntimeV2_x"](config)
+                        finally:
+                            ActionDispatcher.load_actions_from_path = orig
+                    insts.append({"rt": rt, "rails": rails, "cfg": cfg_id, "compiles": 0, "added": False, "state": None})
+                    cur = len(insts) - 1
+                elif cur is None:
+                    done = "skipped"
+                elif k in ("conv", "gen"):
+                    inst = insts[cur]
+                    compilers.setdefault(inst["cfg"], set()).add(cur)
+                    inst["compiles"] += 1
+                    events = [_event(n) for n in (st[1] if k == "conv" else [])]
+                    if k == "gen" and inst["rails"] is not None:
+                        inst["rails"].generate(messages=[{"role": "user", "content": st[1]}])
+                        inst["state"] = None
+                    elif inst["rails"] is not None:
+                        _ev, inst["state"] = inst["rails"].process_events(events, state=None)
+                    else:
+                        _ev, inst["state"] = asyncio.run(inst["rt"].process_events(events, state=None))
+                elif k == "cont":
+                    inst = insts[cur]
+                    if inst["state"] is None:
+                        done = "skipped"
+                    elif inst["rails"] is not None:
+                        _ev, inst["state"] = inst["rails"].process_events([_event(n) for n in st[1]], state=inst["state"])
+                    else:
+                        _ev, inst["state"] = asyncio.run(inst["rt"].process_events([_event(n) for n in st[1]], state=inst["state"]))
+                elif k == "json":
+                    inst = insts[cur]
+                    if inst["state"] is None:
+                        done = "skipped"
+                    else:
+                        from nemoguardrails.colang.v2_x.runtime.serialization import json_to_state, state_to_json
+                        inst["state"] = json_to_state(state_to_json(inst["state"]))
+                elif k == "reinit":
+                    inst = insts[cur]
+                    compilers.setdefault(inst["cfg"], set()).add(cur)
+                    inst["compiles"] += 1
+                    state = State(flow_states={}, flow_configs=inst["rt"].flow_configs, rails_config=config)
+                    sm.initialize_state(state)
+                    inst["state"] = state
+                elif k == "add":
+                    inst = insts[cur]
+                    if inst["state"] is None:
+                        done = "skipped"
+                    else:
+                        added = asyncio.run(inst["rt"]._add_flows_action(inst["state"], config=st[1]))
+                        inst["added"] = inst["added"] or bool(added)
+                        done = "add:%d" % len(added)
+                else:
+                    raise ValueError(k)
+        except Exception as e:  # noqa  -- the loader rejects the configuration (ColangSyntaxError from initialize_state, ...)
+            obs["reject"] = f"step {i} {k}: {type(e).__name__}: {str(e)[:160]}"
+            obs["steps_done"].append("raised")
+            break
+        obs["steps_done"].append(done)
+        for inst in insts:  # a flow the program itself added through AddFlowsAction
+            if inst["state"] is not None and any(f.startswith("extra one") for f in inst["state"].flow_configs):
+                inst["added"] = True
+        snapshot(i, cur)
+    obs["flows"].sort(key=lambda f: CLS_ORDER.index(f["cls"]))  # stable: history order inside a class
+    return obs
+
+
+def run_v1rt(case):
+    """Colang 1.0 analogue: the elements the runtime holds (`runtime.flow_configs[...].elements`) and the elements of the
+    RailsConfig itself, after one / two LLMRails on a shared RailsConfig, after the configuration was loaded again, after a
+    conversation, and for flows added at run time by `_process_start_flow` (multi-step generation)."""
+    import asyncio
+
+    obs = {"version": "1.0", "rt": True, "flows": [], "steps_done": []}
+    try:
+        with _quiet():
+            config = _M["RailsConfig"].from_content(colang_content=case["src"], yaml_content=RT_YAML1)
+    except Exception as e:  # noqa
+        obs["reject"] = f"parse: {type(e).__name__}: {str(e)[:120]}"
+        return obs
+    own = set()
+    for f in config.flows:
+        if f.get("source_code") and f["id"] in case["src"]:
+            own.add(f["id"])
+    insts = []
+    seen = {}
+    dyn_items = {}
+
+    def snapshot(step):
+        views = [("config", {f["id"]: f["elements"] for f in config.flows if f["id"] in own})]
+        for j, r in enumerate(insts):
+            views.append(("rt%d" % j, {fid: fc.elements for fid, fc in r.runtime.flow_configs.items() if fid in own or fid.startswith("dyn")}))
+        for vname, flows in views:
+            for fid, elements in flows.items():
+                elems = [elem_of(e) for e in elements]
+                if seen.get((vname, fid)) == elems:
+                    continue
+                seen[(vname, fid)] = elems
+                rec = {"id": fid, "elems": elems, "oracle": scan_v1(elements), "snap": [step, vname], "cls": "" if step == 0 else "@later"}
+                if vname.startswith("rt") and dyn_items.get((vname, fid)) is not None:
+                    rec["items"], rec["dyn"] = dyn_items[(vname, fid)], True  # compared with the Lean model `dynamicFlow`
+                obs["flows"].append(rec)
+
+    for i, st in enumerate(case["steps"]):
+        k = st[0]
+        done = k
+        try:
+            with _quiet():
+                if k in ("new", "reload"):
+                    if k == "reload":
+                        config = _M["RailsConfig"].from_content(colang_content=case["src"], yaml_content=RT_YAML1)
+                    insts.append(_M["LLMRails"](config, llm=_M["FakeLLM"](responses=["  express greeting", '  "Hi"'] * 4)))
+                elif k == "gen":
+                    insts[-1].generate(messages=[{"role": "user", "content": st[1]}])
+                elif k == "dyn":
+                    rt = insts[-1].runtime
+                    before = st[1] in rt.flow_configs
+                    asyncio.run(rt._process_start_flow([{"type": "start_flow", "flow_id": st[1], "flow_body": st[2]}], []))
+                    done = "dyn:" + ("kept" if before else "added" if st[1] in rt.flow_configs else "refused")
+                    if done == "dyn:added":
+                        import textwrap
+
+                        try:  # the CoYML items of the same body through the split pipeline (for the model `dynamicFlow`)
+                            body = "define flow " + st[1] + ":\n" + textwrap.indent(st[2], "  ")
+                            recs = compile_v1_source("dynamic.co", body)
+                            dyn_items[("rt%d" % (len(insts) - 1), st[1])] = recs[0].get("items") if len(recs) == 1 else None
+                        except Exception:  # noqa
+                            pass
+                else:
+                    raise ValueError(k)
+        except Exception as e:  # noqa
+            obs["reject"] = f"step {i} {k}: {type(e).__name__}: {str(e)[:160]}"
+            obs["steps_done"].append("raised")
+            break
+        obs["steps_done"].append(done)
+        snapshot(i)
+    return obs
 
 
 # ---- Colang 1.0
@@ -1084,10 +1561,30 @@ def run_impl(case):
     if k == "v2ast":
         A = _M["A"]
         flow = A.Flow(name="main", elements=build_v2_ast(case["stmts"]), file_info={"name": "gen"})
-        obs = {"version": "2.x", "flows": compile_v2_flows([flow], False)}
+        obs = {"version": "2.x", "flows": compile_v2_flows([flow], False, case.get("again"))}
         for f in obs["flows"]:
-            f["stmts"] = case["stmts"]
+            if "cls" not in f:
+                f["stmts"] = case["stmts"]
+            elif f.get("recompiled") and not f["oracle"]:
+                f["stmts2"] = case["stmts"]  # compared with the model of the REPAIRED compiler's k+1-st compilation
         return obs
+    if k in ("v2rt", "v1rt"):
+        # these cases EXECUTE conversations: CPU-time watchdog (ITIMER_VIRTUAL, independent of the runner's wall-clock alarm)
+        import signal
+
+        def on_timeout(signum, frame):  # fires again every second: the interpreter's `except Exception` must not swallow it
+            raise _Watchdog("conversation did not finish within 20 s of CPU time")
+
+        old = signal.signal(signal.SIGVTALRM, on_timeout)
+        signal.setitimer(signal.ITIMER_VIRTUAL, 20, 1)
+        try:
+            return run_v2rt(case) if k == "v2rt" else run_v1rt(case)
+        except _Watchdog as e:
+            signal.setitimer(signal.ITIMER_VIRTUAL, 0)
+            return {"version": "2.x" if k == "v2rt" else "1.0", "rt": True, "flows": [], "steps_done": ["timeout"], "reject": "timeout: " + str(e)}
+        finally:
+            signal.setitimer(signal.ITIMER_VIRTUAL, 0)
+            signal.signal(signal.SIGVTALRM, old)
     if k == "v1src":
         obs = {"version": "1.0"}
         try:
@@ -1108,6 +1605,18 @@ def _wants_pathsafe(f):
     return len(f["prog"]) <= 400 and any(p[0] == "begin" for p in f["prog"]) and not f["oracle"]
 
 
+def _n_exits(stmts):
+    n = 0
+    for s in stmts:
+        if s[0] in ("break", "continue"):
+            n += 1
+        elif s[0] == "if":
+            n += _n_exits(s[1]) + _n_exits(s[2])
+        elif s[0] == "while":
+            n += _n_exits(s[1])
+    return n
+
+
 def model_requests(case, obs):
     reqs = []
     if obs.get("witness"):
@@ -1120,11 +1629,15 @@ def model_requests(case, obs):
                     reqs.append({"m": "C12.pathsafe", "prog": f["prog"]})
                 if "stmts" in f:
                     reqs.append({"m": "C12.expand", "stmts": f["stmts"]})
+                if "stmts2" in f:
+                    reqs.append({"m": "C12.recompile", "stmts": f["stmts2"], "k": f["recompiled"], "slots": _n_exits(f["stmts2"])})
+                if "user_labels" in f:
+                    reqs.append({"m": "C12.names", "user": f["user_labels"]})
         else:
             if "elems" in f:
                 reqs.append({"m": "C12.v1closed", "elems": f["elems"]})
             if "items" in f:
-                reqs.append({"m": "C12.v1compile", "items": f["items"]})
+                reqs.append({"m": "C12.v1dynamic" if f.get("dyn") else "C12.v1compile", "items": f["items"]})
     return reqs
 
 
@@ -1149,7 +1662,7 @@ def canon_labels(prog):
     out = []
     for p in prog:
         t = p[0]
-        if t in ("label", "goto", "merge", "begin", "end", "catch", "break", "continue"):
+        if t in ("label", "goto", "jump", "merge", "begin", "end", "catch", "break", "continue"):
             out.append([t, r(p[1])])
         elif t == "fork":
             out.append([t, r(p[1]), [r(x) for x in p[2]]])
@@ -1170,7 +1683,7 @@ def canon_full(prog):
     out = []
     for p in prog:
         t = p[0]
-        if t in ("label", "goto", "merge", "begin", "end", "catch", "break", "continue"):
+        if t in ("label", "goto", "jump", "merge", "begin", "end", "catch", "break", "continue"):
             out.append([t, r(p[1])])
         elif t == "fork":
             out.append([t, r(p[1]), [r(x) for x in p[2]]])
@@ -1212,6 +1725,23 @@ def compare(case, obs, mouts):
                     a, b = canon_labels(m2["prog"]), canon_labels(f["prog"])
                     i = next((j for j in range(min(len(a), len(b))) if a[j] != b[j]), min(len(a), len(b)))
                     return f"flow {f['id']}: Expand model differs from expand_elements at element {i}: model {a[i:i+2]} vs real {b[i:i+2]} (lengths {len(a)}/{len(b)})"
+            if "stmts2" in f:
+                m3 = next(it)
+                a, b = canon_labels(m3["prog"]), canon_labels(f["prog"])
+                if a != b:
+                    i = next((j for j in range(min(len(a), len(b))) if a[j] != b[j]), min(len(a), len(b)))
+                    return f"flow {f['id']}: compilation no. {f['recompiled'] + 1} of the same parsed flow differs from the model of the (repaired) re-compilation at element {i}: model {a[i:i+2]} vs real {b[i:i+2]} (lengths {len(a)}/{len(b)})"
+            if "user_labels" in f:
+                m4 = next(it)
+                user = set(f["user_labels"])
+                for p in f["prog"]:
+                    if p[0] == "label" and p[1] not in user and not any(p[1].startswith(st) for st in m4["stems"]):
+                        return f"flow {f['id']}: the real compiler generated the label {p[1]!r} whose name begins with none of the reserved stems of the model ({m4['stems']}): expand_labels_stemmed no longer describes the code"
+                bad = [u for u, ok in zip(f["user_labels"], m4["ok"]) if not ok]
+                gen_names = [p[1] for p in f["prog"] if p[0] == "label" and p[1] not in user]
+                for u in bad:  # outside the hypothesis of expand_labels_avoid_user: only an actual capture is reported
+                    if u in gen_names:
+                        return f"flow {f['id']}: user label {u!r} equals a generated label name"
         else:
             if "elems" in f:
                 m = next(it)
@@ -1230,32 +1760,43 @@ def compare(case, obs, mouts):
                     b = [[e["k"], e["n"], e["e"], e["b"], e["c"], e["h"], e["a"]] for e in f["elems"]]
                     if a != b:
                         i = next((j for j in range(min(len(a), len(b))) if a[j] != b[j]), min(len(a), len(b)))
-                        return f"flow {f['id']}: V1Compile model differs from parse_flow_elements at element {i}: model {a[i:i+1]} vs real {b[i:i+1]} (lengths {len(a)}/{len(b)})"
+                        return f"flow {f['id']}: V1Compile model{' (dynamicFlow = start_flow :: compileFull)' if f.get('dyn') else ''} differs from the real elements at element {i}: model {a[i:i+1]} vs real {b[i:i+1]} (lengths {len(a)}/{len(b)})"
     return None
 
 
 # ----------------------------------------------------------------------------- oracle / bookkeeping
 
-def oracle(case, obs):
+def _where(case, obs, f):
     where = case.get("path") or case["kind"]
+    hist = ""
+    if "snap" in f:
+        hist = f" [after step {f['snap'][0]} of the history, instance/view {f['snap'][1]}{'/' + f['view'] if 'view' in f else ''}; history class {f.get('cls') or '@first-compilation'}]"
+    return f"{where} flow `{f['id']}` (Colang {obs['version']}){hist}: "
+
+
+def oracle(case, obs):
     flows = obs.get("flows", [])
     for f in flows:  # static closedness first, so that a recorded path-level finding never hides it
         if f.get("oracle"):
-            return f"{where} flow `{f['id']}` (Colang {obs['version']}): " + "; ".join(f["oracle"][:3])
+            return _where(case, obs, f) + "; ".join(f["oracle"][:3])
     for f in flows:
         if f.get("oracle_paths"):
-            return f"{where} flow `{f['id']}` (Colang {obs['version']}): " + "; ".join(f["oracle_paths"][:2])
+            return _where(case, obs, f) + "; ".join(f["oracle_paths"][:2])
     return None
 
 
 def signature(case, obs, msg):
     m = re.search(r"(scope-reopened|dangling-target|merge-without-fork|scope-never-closed|endscope-without-beginscope|composite-left|label-table|offset-out-of-bounds|unresolved|missing-offset|adapter)", msg or "")
-    return (obs.get("version", "?") + ":" + m.group(1)) if m else None
+    if not m:
+        return None
+    h = re.search(r"history class (@[a-z-]+)", msg or "")
+    cls = h.group(1) if h and h.group(1) != "@first-compilation" else ""
+    return obs.get("version", "?") + ":" + m.group(1) + cls
 
 
 def _jumps(f):
     if "prog" in f:
-        return sum(1 for p in f["prog"] if p[0] in ("goto", "fork", "catch", "break", "continue", "merge", "begin"))
+        return sum(1 for p in f["prog"] if p[0] in ("goto", "jump", "fork", "catch", "break", "continue", "merge", "begin"))
     if "elems" in f:
         return sum(1 for e in f["elems"] if any(e[k] is not None for k in ("n", "e", "b", "c")) or e["h"])
     return 0
@@ -1272,7 +1813,21 @@ def tags(case, obs):
         if case["kind"] == "file":
             t.append("rejected-file:" + case["path"])
     flows = obs.get("flows", [])
+    if obs.get("rt"):
+        t.append("rt:api:" + case.get("api", "rails"))
+        for d in obs.get("steps_done", []):
+            t.append("rt:step:" + d)
+        t.append("rt:steps=%d" % len(case["steps"]))
+        for c in sorted({f.get("cls", "") for f in flows}):
+            t.append("rt:flows-seen" + (c or "@first-compilation"))
+        n_conv = sum(1 for x in case["steps"] if x[0] in ("conv", "reinit", "gen"))
+        t.append("rt:fresh-conversations=%d" % min(n_conv, 4))
+    if case.get("again"):
+        t.append("v2ast:again:" + case["again"])
     for f in flows:
+        if f.get("same"):
+            t.append("v2ast:reinit-identical")
+            continue
         if "reject" in f:
             t.append("rejected-flow")
             if case["kind"] == "file":
@@ -1284,15 +1839,21 @@ def tags(case, obs):
             if len(names) != len(set(names)):
                 t.append("v2:duplicate-labels(benign)")
             kinds = {p[0] for p in f["prog"]}
-            for k in ("fork", "begin", "catch", "break", "continue", "goto"):
+            for k in ("fork", "begin", "catch", "break", "continue", "goto", "jump"):
                 if k in kinds:
                     t.append("v2:has-" + k)
             if any(p[0] in ("break", "continue") and p[1] is None for p in f["prog"]):
                 t.append("v2:break-outside-loop")
+            if f.get("cls") and any(p[0] in ("break", "continue") and p[1] is not None for p in f["prog"]):
+                t.append("rt:loop-exit-in-flow" + f["cls"])
             n = len(f["prog"])
             t.append("v2:len<10" if n < 10 else "v2:len<50" if n < 50 else "v2:len<200" if n < 200 else "v2:len>=200")
             if "stmts" in f:
                 t.append("v2:expand-differential")
+            if "stmts2" in f:
+                t.append("v2:recompile-differential")
+            if f.get("user_labels"):
+                t.append("v2:user-labels")
             if f.get("oracle_paths"):
                 t.append("v2:path-scope-problem")
         if "elems" in f:
@@ -1305,7 +1866,7 @@ def tags(case, obs):
             n = len(f["elems"])
             t.append("v1:len<10" if n < 10 else "v1:len<50" if n < 50 else "v1:len>=50")
             if "items" in f:
-                t.append("v1:compile-differential")
+                t.append("v1:dynamic-flow-differential" if f.get("dyn") else "v1:compile-differential")
     return t
 
 
@@ -1332,9 +1893,24 @@ def shrink(case):
     if case["kind"] == "v2ast":
         for s in _sub_tree(case["stmts"]):
             yield dict(case, stmts=s)
+        if case.get("again") == "recompile2":
+            yield dict(case, again="recompile")
     elif case["kind"] == "v1items":
         for s in _sub_tree(case["items"]):
             yield dict(case, items=s)
+    elif case["kind"] in ("v2rt", "v1rt"):
+        steps = case["steps"]
+        for i in range(1, len(steps)):
+            yield dict(case, steps=steps[:i] + steps[i + 1:])
+        if case.get("api") == "rails" and case["kind"] == "v2rt":
+            yield dict(case, api="runtime")
+        lines = case["src"].split("\n")
+        gate = next((i for i, l in enumerate(lines) if "NeverSent" in l), None)
+        if case["kind"] == "v2rt" and gate is None:
+            return  # a program that is executed as it is (corpus): its source is not shrunk (a shrunk loop need not terminate)
+        for i in range(len(lines)):
+            if lines[i].strip() and not lines[i].startswith(("flow ", "define ")) and "NeverSent" not in lines[i] and lines[i].strip() != "$x = 0":
+                yield dict(case, src="\n".join(lines[:i] + lines[i + 1:]))
     elif case["kind"] in ("v2src", "v1src"):
         lines = case["src"].split("\n")
         for i in range(len(lines)):
